@@ -62,6 +62,9 @@ func preTraversalVisitValuesInstruction(instruction ssa.Instruction, seen map[ss
 
 	case *ssa.Defer:
 		visit(x.Call.Value)
+		for i := range x.Call.Args {
+			visit(x.Call.Args[i])
+		}
 
 	case *ssa.Extract:
 		visit(x.Tuple)
@@ -74,6 +77,9 @@ func preTraversalVisitValuesInstruction(instruction ssa.Instruction, seen map[ss
 
 	case *ssa.Go:
 		visit(x.Call.Value)
+		for i := range x.Call.Args {
+			visit(x.Call.Args[i])
+		}
 
 	case *ssa.If:
 		visit(x.Cond)
